@@ -150,7 +150,7 @@ SRC_TIE = {
     'C04': {'Block': ['Block1014.write', 'Block1014.finalise']},
     'C05': {'Unblock': ['Unblock1014.read', 'Block1014.write', 'Block1014.finalise']},
     'C01': {'Bits': ['BitArray.tolist', 'BitArray.fromlist']},
-    'C02': {'Bits': ['BitArray.tolist', 'BitArray.fromlist']},
+    'C02': {'Bits': ['BitArray.tolist', 'BitArray.fromlist'], 'Field': ['_get_field_length', '_field_to_iso8583']},
     'C07': {'Pds': ['_pds_to_dict', '_icc_to_dict', '_pds_to_de']},
     'C08': {'Pds': ['_pds_to_dict', '_icc_to_dict', '_pds_to_de'], 'Bits': ['BitArray.tolist', 'BitArray.fromlist']},
     'C12': {'Pds': ['_pds_to_dict', '_icc_to_dict', '_pds_to_de']},
